@@ -210,11 +210,16 @@ func Last[T any](iter Iterator[T], n int) []T {
 		if !ok {
 			break
 		}
-		buf[i%n] = item
+		if n > 0 {
+			buf[i%n] = item
+		}
 		i++
 	}
 	if i < n {
 		return buf[:i]
+	}
+	if n == 0 {
+		return buf
 	}
 	out := make([]T, n)
 	idx := i % n
